@@ -27,6 +27,11 @@ def hostile_docs(rng, prog, kind, h, ct, others):
     for o in other_kind[:3]:
         out.append(("other-kind-name", "{" + dumps(T.wire_name(o[0]["name"])) + ":" + body + "}"))
         out.append(("other-kind-msg", o[1]))
+    for at in h.get("sv_attrs", []):
+        m = re.match(r'serde\(alias = "([^"]+)"\)$', at)
+        if m:
+            # a name the owning part accepts through a forwarded serde(alias); shared: a second part accepts it too
+            out.append(("alias-shared" if m.group(1) == h.get("shared_alias") else "alias-name", "{" + dumps(m.group(1)) + ":" + body + "}"))
     out.append(("empty-object", "{}"))
     out.append(("two-keys-unknown", "{" + dumps(n) + ":" + body + ",\"zz_unknown\":{}}"))
     out.append(("two-keys-unknown-first", "{\"aa_unknown\":{}," + dumps(n) + ":" + body + "}"))
@@ -165,6 +170,10 @@ def run(ctx):
     rel.each_bin(lambda b, progs, r: [check_prog(ctx, r, p, n) for p in progs])
     ctx.cov["release_profile_programs"] = len(rel.progs)
     # handlers taking 128-bit primitives: their JSON numbers may lie beyond the 64-bit range
+    # programs with forwarded serde attributes that change what the parts accept (aliases, deny_unknown_fields, defaults)
+    attrs = ctx.family("attrs")
+    attrs.each_bin(lambda b, progs, r: [check_prog(ctx, r, p, max(1, n // 2)) for p in progs])
+    ctx.cov["attr_effect_programs"] = len(attrs.progs)
     wide = ctx.family("wide")
     wctx = WideCtx(ctx)
     wide.each_bin(lambda b, progs, r: [check_prog(wctx, r, p, n) for p in progs])
